@@ -111,6 +111,8 @@ def main(run):
         labelset = rnd.choice([[0, 1, 2], ["a", "b", "c"], [0, 1]])
         wrappers = [lf] + [validate_loss_function(m) for _ in range(rnd.choice([0, 1, 2]))]
         before = m.get()
+        clones = []
+        shared_pred = {}            # ONE prediction dict object reused (overwritten) by the caller for a stretch of calls
         # an explainer sharing the same metric object (regression-type metrics with scalar outputs only)
         expl = None
         if kind == "reg":
@@ -131,6 +133,23 @@ def main(run):
                 elif kind == "bin" and isinstance(yt, bool):
                     yt = np.bool_(yt)
             w = rnd.choice(wrappers)
+            if i in (40, 200) and len(wrappers) < 5:
+                # checkpointing: a deep copy / pickle round trip of a loss function (with its own copy of the metric) is used from now
+                # on next to the originals; it must behave like them
+                import copy
+                import pickle
+                try:
+                    if i == 40:
+                        clone = copy.deepcopy(w)
+                    else:       # (the recording subclass is local to this harness and cannot be pickled: a plain metric of the class is used)
+                        plain = validate_loss_function(cls())
+                        clone = pickle.loads(pickle.dumps(plain))
+                    wrappers.append(clone)
+                    clones.append(clone)
+                    w = clone
+                except Exception as ex:
+                    run.violation("loss-raises", f"{name}: {'deepcopy' if i == 40 else 'pickle round trip'} of the loss function raised {type(ex).__name__}: {ex}",
+                                  {"metric": name, "call": i, "checkpoint": True})
             if rnd.random() < 0.03:
                 # error path: a call the metric cannot digest (prediction None / unhashable label); the caller catches whatever
                 # is raised and carries on - later values and the metric's own value must be unaffected
@@ -181,6 +200,10 @@ def main(run):
                 yp = dd
             elif ctype < 0.3:
                 yp = _Pred(yp)
+            elif ctype < 0.45:       # a streaming loop that keeps ONE dict and overwrites its entries for every new prediction
+                shared_pred.clear()
+                shared_pred.update(yp)
+                yp = shared_pred
             yp_copy = dict(yp)
             try:
                 got = w(y_true=yt, y_prediction=yp) if 0.3 <= ctype < 0.36 else w(yt, yp)     # (documented parameter names, passed by keyword now and then)
@@ -202,7 +225,9 @@ def main(run):
                 run.violation("metric-state-changed", f"{name} call {i}: metric.get() was {before!r}, now {after!r}", replay)
                 ok = False
             want = dict if dict_input else type(yp["output"])
-            if not received or any((not issubclass(t, dict)) if want is dict else (t is not want) for t in received):
+            if w in clones[1:]:
+                pass            # (the pickled clone wraps a plain metric: no recording subclass to observe what reached it)
+            elif not received or any((not issubclass(t, dict)) if want is dict else (t is not want) for t in received):
                 run.violation("input-routing", f"{name}: metric received {received!r}, expected {want.__name__}", replay)
                 ok = False
             if yp != yp_copy:
